@@ -20,6 +20,7 @@ from __future__ import annotations
 
 import asyncio
 import contextvars
+import gc
 import json
 import queue
 import threading
@@ -30,6 +31,8 @@ REALISATIONS = ("copy_context", "threads", "asyncio")
 TOP = "@top"
 CVK = "@cv"   # LocalProxy(plain ContextVar without default)
 FNK = "@fn"   # LocalProxy(callable)
+CVD = "@cvd"  # LocalProxy(ContextVar(.., default=object 4))
+CVZ = "@cvz"  # LocalProxy(ContextVar(.., default=object 5, the int 0))
 CTORS = ("default", "cv", "cvdef")  # how Local / LocalStack are constructed (Env)
 UNBOUND_REPR = "<LocalProxy unbound>"
 
@@ -139,6 +142,11 @@ class Env:
         self.cv = contextvars.ContextVar("verif.plain")  # behind the @cv proxy, no default
         self.manager = LocalManager([self.ns, self.stack])
         self.boxes = make_objects(nboxes)
+        # plain ContextVars declared with a default (behind the @cvd / @cvz proxies) and the tokens
+        # of their outstanding set() calls per (context id, kind)
+        self.dvars = {CVD: contextvars.ContextVar("verif.d", default=self.boxes.get(4)),
+                      CVZ: contextvars.ContextVar("verif.z", default=self.boxes.get(5))}
+        self.tokens = {}
         self.proxies = {}
         self.inflight = {}   # context id -> unclosed iterable returned by the manager middleware
         self._wrapped = {}   # the manager in use and, per form, the one middleware object all requests use
@@ -153,6 +161,8 @@ class Env:
         kw = {"unbound_message": "nothing here"} if how == 2 else {}
         if k == CVK:
             self.proxies[k] = LocalProxy(self.cv, **kw)
+        elif k in self.dvars:
+            self.proxies[k] = LocalProxy(self.dvars[k], **kw)
         elif k == FNK:
             # the documented legacy form LocalProxy(lambda: other_proxy.attr): a callable that
             # itself says RuntimeError where nothing is bound
@@ -228,10 +238,23 @@ class Env:
             if op == "cv_set":
                 self.cv.set(self.boxes[o["b"]])
                 return _ok()
+            if op == "cvd_set":
+                self.tokens.setdefault((o["ctx"], o["k"]), []).append(self.dvars[o["k"]].set(self.boxes[o["b"]]))
+                return _ok()
+            if op == "cvd_reset":  # undo the latest set() of this context
+                self.dvars[o["k"]].reset(self.tokens[(o["ctx"], o["k"])].pop())
+                return _ok()
             if op == "mw_enter":
                 return self._enter(o)
             if op == "mw_close":
                 return self._close(o)
+            if op == "mw_abandon":
+                # this context receives the only reference to another context's unclosed response,
+                # drops it and collects garbage
+                it = self.inflight.pop(o["child"])
+                del it
+                gc.collect()
+                return _ok()
             if op == "proxy_read":
                 return self._box(self.proxies[o["k"]]._get_current_object())
             if op == "proxy_mutate":
@@ -769,7 +792,8 @@ def random_ops(rng, length, *, nctx=3, names=("x", "y", "z"), nboxes=23, vals=(0
     operations enabled: which contexts exist, which proxies exist, stack depth is irrelevant)."""
     alive = [1]
     made = set(made)
-    kinds = list(names) + [TOP, CVK, FNK]
+    kinds = list(names) + [TOP, CVK, FNK, CVD, CVZ]
+    ntok = {}               # outstanding set() tokens per (context, kind)
     depth = {1: 0}
     ops = [mkop(1, "nop")]  # reads before any write, in the root and in the main context
     nmul = 0
@@ -798,7 +822,12 @@ def random_ops(rng, length, *, nctx=3, names=("x", "y", "z"), nboxes=23, vals=(0
                 ops.append(mkop(c, rng.choice(["release_dunder", "release_stack_dunder", "pop_all"])))
             continue
         if rng.random() < 0.10:  # overlapping requests: enter / close halves, per context
-            if c in infl:
+            others = sorted(infl - {c})
+            if others and rng.random() < 0.12:
+                a = rng.choice(others)
+                ops.append(mkop(c, "mw_abandon", child=a))
+                infl.discard(a)
+            elif c in infl:
                 ops.append(mkop(c, "mw_close", v=rng.randint(0, 2)))
                 infl.discard(c)
             else:
@@ -812,8 +841,19 @@ def random_ops(rng, length, *, nctx=3, names=("x", "y", "z"), nboxes=23, vals=(0
                 if v == 0:
                     infl.add(c)
             continue
-        if rng.random() < 0.04:
-            ops.append(mkop(c, "nop") if rng.random() < 0.5 else mkop(c, "cv_set", b=rng.randint(1, nboxes)))
+        if rng.random() < 0.07:
+            u = rng.random()
+            k = rng.choice([CVD, CVZ])
+            if u < 0.3:
+                ops.append(mkop(c, "nop"))
+            elif u < 0.5:
+                ops.append(mkop(c, "cv_set", b=rng.randint(1, nboxes)))
+            elif u < 0.8 or not ntok.get((c, k)):
+                ops.append(mkop(c, "cvd_set", b=rng.randint(1, nboxes), k=k))
+                ntok[(c, k)] = ntok.get((c, k), 0) + 1
+            else:
+                ops.append(mkop(c, "cvd_reset", k=k))
+                ntok[(c, k)] -= 1
             continue
         w = rng.random()
         if w < 0.10 and len(alive) < nctx:
